@@ -8,6 +8,11 @@ CONSTANTS
   MainReadsErrs = TRUE
   GenVariants = {1}
   SlotRelease = "deferred"
+  TargetRule = "trimsuffix"
+  WalkRule = "filesonly"
+  OrphanStat = "fileonly"
+  RootRule = "exempt"
+  RootTrees = {}
   SkipRule = "coded"
   TwoRuns = FALSE
   EmitCases = FALSE
